@@ -6,6 +6,7 @@
   `solve_fivecells`.
 -/
 import CspuzModel.Proofs.C11Fivecells
+import CspuzModel.Proofs.C11FivecellsEx
 namespace Cspuz.C11.Fivecells
 open Cspuz Cspuz.Spec Cspuz.Puzzles.Fivecells Cspuz.Spec.Fivecells
 
@@ -51,6 +52,16 @@ theorem exPb_wf : WellFormed exPb := by
 
 example : WellFormed exPb ∧ ∃ P, program exPb = .ok P ∧ P.keys = [29, 30, 31, 32] ∧ P.decls.length = 33 :=
   ⟨exPb_wf, _, rfl, by decide, by decide⟩
+
+/-- The rule specification is not vacuous: on `exPb` the whole strip as one region obeys the rules (no side
+between two cells is a border) — and therefore the posted program has a model with these key values. -/
+example : Rules exPb [.b false, .b false, .b false, .b false] := Cspuz.Proofs.C11FivecellsEx.strip_rules
+
+example : ∃ P σ, program exPb = .ok P ∧ Sat P.decls P.cs σ ∧
+    P.keyVals σ = [some (.b false), some (.b false), some (.b false), some (.b false)] := by
+  obtain ⟨P, hP⟩ := total exPb exPb_wf
+  obtain ⟨σ, hσ, hk⟩ := ((program_iff_rules exPb exPb_wf P hP).1 _).2 Cspuz.Proofs.C11FivecellsEx.strip_rules
+  exact ⟨P, σ, hP, hσ, hk⟩
 
 /-- A 3×2 board (height > width) with a blocked-out corner: five board cells, a clue `3` in a corner. -/
 def exPb2 : Problem := { height := 3, width := 2, problem := [[3, -1], [-1, -1], [-1, -2]] }
